@@ -41,6 +41,17 @@ Theorem C15_request_loader_guarded :
 Proof. exact request_loader_guarded. Qed.
 Print Assumptions C15_request_loader_guarded.
 
+(* Several get_cookie calls on ONE request: every read returns (and unpickles)
+   exactly what a single read of that (name, secret) returns — no read depends on
+   the reads made before it (no memo keyed by the name alone, no state). *)
+Theorem C15_reads_independent :
+  forall (val : Type) (mac : list N -> list N -> list N) (loads : list N -> @lres val)
+         (hdr : str) (reads : list (str * option str)),
+    get_cookie_seq val mac loads hdr reads
+    = List.map (fun r => get_cookie val mac loads hdr (fst r) (snd r)) reads.
+Proof. exact reads_independent. Qed.
+Print Assumptions C15_reads_independent.
+
 (* Any signature part that is not exactly base64(mac(key, msg)) — a substituted,
    deleted, inserted or truncated byte, another cookie's signature — is rejected
    and nothing is unpickled.  No assumption on the MAC.  (A '?' put into the
